@@ -4,6 +4,9 @@ import (
 	"errors"
 	"fmt"
 	"io"
+	"pqsim/env"
+	"pqsim/sched"
+	"strings"
 
 	"github.com/parquet-go/parquet-go"
 
@@ -22,14 +25,18 @@ type SeekOp struct {
 }
 
 type C08Scenario struct {
-	Plan     WritePlan  `json:"plan"`
-	Pools    PoolPolicy `json:"pools"`
-	F        gen.FOpts  `json:"file_opts"`
-	Subject  string     `json:"subject"` // rowgroup | reader | generic | multi | pages | values | buffer
-	RowGroup int        `json:"row_group"`
-	Column   int        `json:"column"`
-	Ops      []SeekOp   `json:"ops"`
+	Plan      WritePlan  `json:"plan"`
+	Pools     PoolPolicy `json:"pools"`
+	F         gen.FOpts  `json:"file_opts"`
+	Subject   string     `json:"subject"` // rowgroup | reader | generic | multi | pages | values | buffer
+	RowGroup  int        `json:"row_group"`
+	Column    int        `json:"column"`
+	Ops       []SeekOp   `json:"ops"`
+	SchedSeed uint64     `json:"sched_seed,omitempty"`
+	Sched     []int      `json:"sched,omitempty"`
 }
+
+func (s *C08Scenario) SchedPtr() *[]int { return &s.Sched }
 
 var c08Subjects = []string{"rowgroup", "reader", "generic", "multi", "pages", "values", "buffer", "rgreader"}
 
@@ -50,9 +57,9 @@ func (C08) Info() core.Info {
 
 func (C08) Budget(tier string) core.Budget {
 	if tier == "thorough" {
-		return core.Budget{Runs: 80000, MaxWall: 20 * 60e9}
+		return core.Budget{Runs: 80000, MaxWall: 20 * 60e9, Race: 8000}
 	}
-	return core.Budget{Runs: 5000, MaxWall: 50e9}
+	return core.Budget{Runs: 3500, MaxWall: 35e9, Race: 200}
 }
 
 func (C08) New() any { return &C08Scenario{} }
@@ -68,6 +75,11 @@ func (C08) Gen(t *tape.Tape, tier string) any {
 	sc.Pools = GenPoolPolicy(t)
 	sc.F = gen.GenFOpts(t)
 	sc.Subject = c08Subjects[t.Draw(len(c08Subjects))]
+	if t.Chance(1, 5) {
+		sc.F.Async = true
+		sc.F.Optimistic = false
+		sc.SchedSeed = t.Seed()
+	}
 	sc.RowGroup = t.Draw(4)
 	sc.Column = t.Draw(16)
 	n := int64(sc.Plan.NRows)
@@ -138,71 +150,112 @@ func (C08) Run(s any, c *core.Ctx) core.Outcome {
 		out.Violation = core.Violate("C08/fault-free-write-error/"+res.ErrOp, "%v", res.FirstErr)
 		return out
 	}
-	sf, f, err := openFile(c, res.Sink.Bytes(), sc.F)
-	if err != nil {
-		out.Violation = core.Violate("C08/open-error", "%v", err)
-		return out
-	}
-	rgs := f.RowGroups()
-	if len(rgs) == 0 {
-		return out
-	}
-	maxPages := 0
-	for _, rg := range rgs {
-		for _, cc := range rg.ColumnChunks() {
-			if oi, err := cc.OffsetIndex(); err == nil && oi != nil && oi.NumPages() > maxPages {
-				maxPages = oi.NumPages()
-			}
+	fileBytes := res.Sink.Bytes()
+	back, served, maxPages, nrgs := 0, 0, 0, 0
+	var rgs []parquet.RowGroup
+	readPart := func(reader io.ReaderAt) {
+		f, err := parquet.OpenFile(reader, int64(len(fileBytes)), sc.F.Options()...)
+		if err != nil {
+			out.Violation = core.Violate("C08/open-error", "%v", err)
+			return
 		}
-	}
-	g := sc.RowGroup % len(rgs)
-	rgFirst := 0
-	for i := 0; i < g; i++ {
-		rgFirst += int(rgs[i].NumRows())
-	}
-	rgModel := model[rgFirst : rgFirst+int(rgs[g].NumRows())]
-	back, served := 0, 0
-	clampOps := func(n int) []SeekOp {
-		ops := make([]SeekOp, len(sc.Ops))
-		copy(ops, sc.Ops)
-		for i := range ops {
-			if ops[i].K > int64(n) {
-				ops[i].K = int64(n) - (ops[i].K-int64(n))%int64(n+1)
-				if ops[i].K < 0 {
-					ops[i].K = 0
+		rgs := f.RowGroups()
+		if len(rgs) == 0 {
+			return
+		}
+		maxPages = 0
+		for _, rg := range rgs {
+			for _, cc := range rg.ColumnChunks() {
+				if oi, err := cc.OffsetIndex(); err == nil && oi != nil && oi.NumPages() > maxPages {
+					maxPages = oi.NumPages()
 				}
 			}
 		}
-		return ops
+		g := sc.RowGroup % len(rgs)
+		rgFirst := 0
+		for i := 0; i < g; i++ {
+			rgFirst += int(rgs[i].NumRows())
+		}
+		rgModel := model[rgFirst : rgFirst+int(rgs[g].NumRows())]
+		clampOps := func(n int) []SeekOp {
+			ops := make([]SeekOp, len(sc.Ops))
+			copy(ops, sc.Ops)
+			for i := range ops {
+				if ops[i].K > int64(n) {
+					ops[i].K = int64(n) - (ops[i].K-int64(n))%int64(n+1)
+					if ops[i].K < 0 {
+						ops[i].K = 0
+					}
+				}
+			}
+			return ops
+		}
+		switch sc.Subject {
+		case "rowgroup":
+			rows := rgs[g].Rows()
+			out.Violation = c08RowOps(c, "rowgroup", rows, rgModel, clampOps(len(rgModel)), &back, &served)
+			rows.Close()
+		case "rgreader":
+			r := parquet.NewRowGroupReader(rgs[g])
+			out.Violation = c08RowOps(c, "rgreader", r, rgModel, clampOps(len(rgModel)), &back, &served)
+			r.Close()
+		case "reader":
+			r := parquet.NewReader(f)
+			out.Violation = c08RowOps(c, "reader", r, model, sc.Ops, &back, &served)
+			r.Close()
+		case "multi":
+			rows := parquet.MultiRowGroup(rgs...).Rows()
+			out.Violation = c08RowOps(c, "multi", rows, model, sc.Ops, &back, &served)
+			rows.Close()
+		case "generic":
+			r := sh.NewReader(f)
+			out.Violation = c08TypedOps(c, sh, data, r, model, sc.Ops, &back, &served)
+			r.Close()
+		case "pages", "values":
+			ccs := rgs[g].ColumnChunks()
+			ci := sc.Column % len(ccs)
+			out.Violation = c08ColumnOps(c, sc.Subject, ccs[ci], ci, rgModel, clampOps(len(rgModel)), &back, &served)
+		}
+
+		nrgs = len(rgs)
 	}
-	switch sc.Subject {
-	case "rowgroup":
-		rows := rgs[g].Rows()
-		out.Violation = c08RowOps(c, "rowgroup", rows, rgModel, clampOps(len(rgModel)), &back, &served)
-		rows.Close()
-	case "rgreader":
-		r := parquet.NewRowGroupReader(rgs[g])
-		out.Violation = c08RowOps(c, "rgreader", r, rgModel, clampOps(len(rgModel)), &back, &served)
-		r.Close()
-	case "reader":
-		r := parquet.NewReader(sf)
-		out.Violation = c08RowOps(c, "reader", r, model, sc.Ops, &back, &served)
-		r.Close()
-	case "multi":
-		rows := parquet.MultiRowGroup(rgs...).Rows()
-		out.Violation = c08RowOps(c, "multi", rows, model, sc.Ops, &back, &served)
-		rows.Close()
-	case "generic":
-		r := sh.NewReader(sf)
-		out.Violation = c08TypedOps(c, sh, data, r, model, sc.Ops, &back, &served)
-		r.Close()
-	case "pages", "values":
-		ccs := rgs[g].ColumnChunks()
-		ci := sc.Column % len(ccs)
-		out.Violation = c08ColumnOps(c, sc.Subject, ccs[ci], ci, rgModel, clampOps(len(rgModel)), &back, &served)
+	if sc.F.Async {
+		// asynchronous read mode: the library's page goroutines park at every
+		// ReadAt of the gated file; the seeded scheduler picks who proceeds
+		c.Unstable()
+		var S *sched.S
+		gf := &gatedFile{data: fileBytes, s: &S, eof: sc.F.EOFAtEnd}
+		var replay []int
+		if sc.Sched != nil {
+			replay = sc.Sched
+		}
+		dec := sched.NewDecisions(sc.SchedSeed, replay)
+		sres := sched.Run(core.T, dec, 60000, nil, func(s *sched.S) { S = s }, []func(*sched.S){func(*sched.S) { readPart(gf) }}, nil)
+		sc.Sched = sres.Decisions
+		c.Inter = sres.Inter
+		c.Steps += sres.Steps
+		c.ProbeN("sched-decisions", sres.Steps)
+		c.Probe("async-runs")
+		if out.Violation == nil && sres.Panic != nil {
+			out.Violation = core.Violate("C08/panic/async/"+sc.Subject, "%v\n%s", sres.Panic, core.IfStack(sres.Stack))
+		}
+		if out.Violation == nil && sres.Deadlock != "" {
+			out.Violation = core.Violate("C08/deadlock/async/"+sc.Subject, "%s after %d decisions", sres.Deadlock, sres.Steps)
+		}
+		if out.Violation != nil && !strings.Contains(out.Violation.Class, "/async") {
+			out.Violation.Class += "/async"
+		}
+	} else {
+		sf := env.NewFile(c, fileBytes)
+		sf.EOFAtEnd = sc.F.EOFAtEnd
+		readPart(sf)
 	}
+	if out.Violation != nil {
+		return out
+	}
+	_ = rgs
 	out.Nontrivial = back > 0 && served > 0 && maxPages >= 2
-	out.Sample = map[string]any{"subject": sc.Subject, "shape": sc.Plan.Shape, "rows": len(model), "row_groups": len(rgs), "max_pages": maxPages, "ops": sc.Ops, "opts": sc.Plan.W.Sig()}
+	out.Sample = map[string]any{"subject": sc.Subject, "shape": sc.Plan.Shape, "rows": len(model), "row_groups": nrgs, "max_pages": maxPages, "ops": sc.Ops, "opts": sc.Plan.W.Sig()}
 	return out
 }
 
